@@ -108,6 +108,8 @@ inline mj::Value op_to_json(const Op & o) {
         v.set("sig", o.sig); v.set("id", (long long) o.sample_id); v.set("utc", (long long) o.utc);
     } else if (o.op == "user") {
         v.set("meta", o.meta); v.set("stor", o.stor); v.set("data", o.data.json());
+    } else if (o.op == "flush") {
+        if (o.sig) v.set("sig", o.sig);   // threaded-writer programs: issued by the application thread that owns this signal
     }
     return v;
 }
@@ -143,6 +145,8 @@ inline Op op_from_json(const mj::Value & v) {
     } else if (o.op == "user") {
         o.meta = (int) v.get_int("meta", 0); o.stor = (int) v.get_int("stor", 1);
         if (v.has("data")) o.data = DataDesc::from(v.at("data"));
+    } else if (o.op == "flush") {
+        o.sig = (int) v.get_int("sig", 0);
     }
     return o;
 }
